@@ -231,6 +231,9 @@ Plan gen_vec_plan(const VecFamily &fam, const VecProfile &prof, uint64_t runSeed
   p.keyDom = 4 + r.below(61);
   // smallBias is encoded into cmpMode (unused by the vector engine otherwise): 1 = counts biased to stay within N
   p.cmpMode = (prof.smallBias && r.below(100) < prof.smallBias) ? 1 : 0;
+  // ... 2 = a "big" run (about one run in twelve of the history profiles): counts and the soft size limit are ten times larger, so that
+  // code paths that only exist from a size on (thresholds, other algorithms for large n) are reached in the quick tier as well
+  if (!p.cmpMode && prof.swarm && prof.bigAppend <= 40 && r.chance(1, 12)) p.cmpMode = 2;
   unsigned w[V_NKINDS];
   unsigned long total = 0;
   for (int k = 0; k < V_NKINDS; ++k) {
@@ -426,6 +429,7 @@ struct Runner {
       s.type->construct(s.obj);
       s.mustInline = s.type->flavour == FL_SMALL;
       if (s.type->elemSize <= 4 || s.type->elemArith) payMod = 30000;
+      if (s.type->elemSize <= 2) payMod = 120;  // one byte per field
       if (s.type->elemArith) arith = true;
     }
     {
@@ -480,7 +484,8 @@ struct Runner {
     size_t sz = s.model.size();
     bool reachable = t.limit <= 255;
     const VecProfile *prof = vec_profile(plan.profile);
-    size_t softRoom = prof ? prof->room : 40;
+    bool bigRun = plan.cmpMode == 2;
+    size_t softRoom = (prof ? prof->room : 40) * (bigRun ? 10 : 1);
     unsigned overshootPct = prof ? prof->overshootPct : 30;
     size_t room = reachable ? (size_t)t.limit : softRoom;
     if (room < sz) room = sz;
@@ -501,7 +506,7 @@ struct Runner {
     };
     // count of added elements, small most of the time
     auto pick_count = [&](size_t lo) -> size_t {
-      size_t c = ((op.n >> 8) & 3) == 0 ? op.n % 40 : op.n % 5;
+      size_t c = ((op.n >> 8) & 3) == 0 ? op.n % (bigRun ? 330 : 40) : op.n % 5;
       if (small && sz + c > t.N) c = sz < t.N ? (op.n % (t.N - sz + 1)) : 0;
       return c < lo ? lo : c;
     };
